@@ -4,6 +4,7 @@ import (
 	"fmt"
 	"math"
 	"math/rand"
+	"strings"
 )
 
 // sweep returns k intervals spread geometrically over [lo, hi] nanoseconds, jittered.
@@ -110,6 +111,15 @@ func scenarios(seed int64, thorough bool) []*Scenario {
 		}
 		add(&Scenario{Class: "mm-lockstep", Kind: "mm", IntervalNs: 1_000_000, N: n, Sizes: pickSizes(r, n+1, false), DelaysNs: d, EndDelayNs: -1, Gated: true, CutAt: -1})
 	}
+
+	// Mechanism A: the gate writer forces the schedules of TLC's counterexamples
+	for _, h := range []string{"next:1", "next:2", "next:3", "complete", "return"} {
+		iv := int64(1_000_000 + r.Intn(4_000_000))
+		add(&Scenario{Class: "gate-" + strings.SplitN(h, ":", 2)[0], Kind: "sse", IntervalNs: iv, N: 3, Sizes: pickSizes(r, 3, false),
+			DelaysNs: []int64{iv / 4, iv / 4, iv / 4}, EndDelayNs: iv / 4, Hold: h, CutAt: -1})
+	}
+	add(&Scenario{Class: "gate-complete", Kind: "sse", IntervalNs: 2_000_000, N: 0, Hold: "complete", CutAt: -1})
+	add(&Scenario{Class: "gate-return", Kind: "sse", IntervalNs: 2_000_000, N: 0, Hold: "return", CutAt: -1})
 
 	// 2. SSE with keep-alive: interval sweep 1 microsecond .. 10 ms
 	k := 45
